@@ -206,6 +206,7 @@ class Node:
         self.dh_calls = 0
         self.last_park_time = None
         self.select_timeout = 1
+        self.exit_kind = None
 
     # --- per-node randomness and clock (used by the seams) ---------------------------------
     def urandom(self, n):
@@ -275,11 +276,13 @@ class Node:
             except Shutdown:
                 self.controller.close()
                 self.state = 'down'
+                self.exit_kind = 'stop'
                 self.world.note('node.stop', self.name)
         except Shutdown:
             self.state = 'down'
         except Crash:
             self.state = 'down'
+            self.exit_kind = 'crash'
             self.world.note('node.crash', self.name, self.crash_site)
         except Hang as ex:
             self.state = 'dead'
@@ -309,6 +312,7 @@ class Node:
         self.state = 'running'
         self.death = None
         self.exited = False
+        self.exit_kind = None
         self.controller = None
         self.udp = {}
         self.control = None
